@@ -1,9 +1,10 @@
 (* Model/VerifyInput.v — the decision logic of Input.verify / Transaction.verify
    (bitcoinlib/transactions.py), for an ARBITRARY signature relation [sv].
-   Definitions only.  [lib_*] mirrors the code as it is.
+   Definitions only.  [lib_*] mirrors the code as it is (after fixes C02-1, C02-2).
 
    Input.verify(transaction_hash):
        if script_type == 'coinbase': valid = True; return True
+       valid = False                                                   # fix C02-1
        if not signatures: return False
        sig_n = key_n = sigs_verified = 0
        while sigs_verified < sigs_required:
@@ -11,14 +12,18 @@
            if sig_n >= len(signatures): return False
            key = keys[key_n]; sig = signatures[sig_n]
            if verify(hash, sig, key):      sigs_verified += 1; sig_n += 1
-           elif sig_n > 0:
-               prev_sig = deepcopy(signatures[sig_n - 1])          # "try previous signature"
-               if verify(hash, prev_sig, key): sigs_verified += 1
            key_n += 1
        valid = True; return True
 
-   In the model the loop state is: the keys not yet visited, the signatures from position sig_n on,
-   the signature at sig_n - 1 when sig_n > 0 ([prev]), and the number of verifications still needed. *)
+   Before fix C02-2 the loop had a second branch
+           elif sig_n > 0:
+               prev_sig = deepcopy(signatures[sig_n - 1])              # "try previous signature"
+               if verify(hash, prev_sig, key): sigs_verified += 1
+   which counted one signature for several keys; [unfixed_verify_loop] keeps that reading so that the recorded
+   witness stays checkable.
+
+   In the model the loop state is: the keys not yet visited, the signatures from position sig_n on, and the
+   number of verifications still needed. *)
 From Coq Require Import List Bool Arith.
 Import ListNotations.
 
@@ -26,7 +31,29 @@ Section Verify.
   Context {sigT keyT : Type}.
   Variable sv : sigT -> keyT -> bool.      (* "signature s is valid for key k over this input's digest" *)
 
-  Fixpoint lib_verify_loop (keys : list keyT) (prev : option sigT) (sigs : list sigT) (need : nat) : bool :=
+  Fixpoint lib_verify_loop (keys : list keyT) (sigs : list sigT) (need : nat) : bool :=
+    match need with
+    | O => true
+    | S need' =>
+      match keys with
+      | [] => false
+      | k :: ks =>
+        match sigs with
+        | [] => false
+        | s :: ss => if sv s k then lib_verify_loop ks ss need' else lib_verify_loop ks sigs need
+        end
+      end
+    end.
+
+  Definition lib_verify_input (coinbase : bool) (keys : list keyT) (sigs : list sigT) (m : nat) : bool :=
+    if coinbase then true
+    else match sigs with
+         | [] => false
+         | _ => lib_verify_loop keys sigs m
+         end.
+
+  (* the loop as it was before fix C02-2 ([prev] = the signature at sig_n - 1 when sig_n > 0) *)
+  Fixpoint unfixed_verify_loop (keys : list keyT) (prev : option sigT) (sigs : list sigT) (need : nat) : bool :=
     match need with
     | O => true
     | S need' =>
@@ -36,35 +63,12 @@ Section Verify.
         match sigs with
         | [] => false
         | s :: ss =>
-          if sv s k then lib_verify_loop ks (Some s) ss need'
+          if sv s k then unfixed_verify_loop ks (Some s) ss need'
           else match prev with
-               | Some p => if sv p k then lib_verify_loop ks prev sigs need'
-                           else lib_verify_loop ks prev sigs need
-               | None => lib_verify_loop ks prev sigs need
+               | Some p => if sv p k then unfixed_verify_loop ks prev sigs need'
+                           else unfixed_verify_loop ks prev sigs need
+               | None => unfixed_verify_loop ks prev sigs need
                end
-        end
-      end
-    end.
-
-  Definition lib_verify_input (coinbase : bool) (keys : list keyT) (sigs : list sigT) (m : nat) : bool :=
-    if coinbase then true
-    else match sigs with
-         | [] => false
-         | _ => lib_verify_loop keys None sigs m
-         end.
-
-  (* The same loop with the "try previous signature" branch removed — the repaired reading in which a
-     signature satisfies at most one key (used to state what the branch adds). *)
-  Fixpoint strict_verify_loop (keys : list keyT) (sigs : list sigT) (need : nat) : bool :=
-    match need with
-    | O => true
-    | S need' =>
-      match keys with
-      | [] => false
-      | k :: ks =>
-        match sigs with
-        | [] => false
-        | s :: ss => if sv s k then strict_verify_loop ks ss need' else strict_verify_loop ks sigs need
         end
       end
     end.
